@@ -744,6 +744,9 @@ func (rn *runner) record(o outcome) {
 			if skipped {
 				r.Count("pass-granted-a-waiter-behind-a-skipped-one")
 			}
+			if s.A.K == "release" && s.A.I < len(o.in.Reqs) && len(o.in.Reqs[s.A.I].W) == 0 && len(o.in.Reqs[s.A.I].R) >= 2 {
+				r.Count("release-of-a-multi-account-reader-granted-a-waiter")
+			}
 		}
 		if s.A.K == "abort" {
 			var rest []int
@@ -881,7 +884,58 @@ func curated() (progs [][]reqSpec, naccs []int) {
 	add(2, w(0), rd(1), w(0), w(1))
 	add(2, rd(0), w(1), w(0), rd(1))
 	add(3, w(0, 1), w(2), w(0), rw([]int{1}, []int{2}))
+	// read-only requests over several accounts, accounts shared between readers, writers queued behind them:
+	// a writer must be granted by the release that frees its last conflicting account, whichever readers remain
+	add(2, rd(0, 1), rd(1), w(0))
+	add(2, rd(1, 0), rd(0), w(1), rd(0, 1))
+	add(3, rd(0, 1), rd(1), rd(2, 1), w(0, 2))
+	add(3, rd(0, 2, 1), rd(1, 2), w(0), w(2))
 	return
+}
+
+// the readers/writers family: read-only requests with 2-3 distinct read accounts (empty write list, random
+// order), accounts shared between several readers, writers with 1-2 accounts queued behind them
+func genReadersWriters(g *vx.Rng, nacc, n int) []reqSpec {
+	perm := func(k int) []int {
+		as := make([]int, nacc)
+		for i := range as {
+			as[i] = i
+		}
+		for i := nacc - 1; i > 0; i-- {
+			j := g.Intn(i + 1)
+			as[i], as[j] = as[j], as[i]
+		}
+		if k > nacc {
+			k = nacc
+		}
+		return as[:k]
+	}
+	var prog []reqSpec
+	readers := 2 + g.Intn(2)
+	if readers > n-1 {
+		readers = n - 1
+	}
+	for i := 0; i < n; i++ {
+		var sp reqSpec
+		switch {
+		case i < readers && i == 0:
+			sp.R = perm(2 + g.Intn(2))
+		case i < readers:
+			sp.R = perm(1 + g.Intn(3))
+		default:
+			sp.W = perm(1 + g.Intn(2))
+			if g.Chance(1, 5) {
+				sp.R = perm(1)
+			}
+		}
+		sp.Pre = g.Chance(1, 12)
+		prog = append(prog, sp)
+	}
+	// sometimes a late reader arrives behind the writers
+	if g.Chance(1, 3) && len(prog) > 2 {
+		prog[len(prog)-1] = reqSpec{R: perm(2)}
+	}
+	return prog
 }
 
 // ---- free-running stress search ----------------------------------------------------------------------------
@@ -1205,8 +1259,19 @@ func main() {
 		nacc := 1 + g.Intn(3)
 		n := 2 + g.Intn(4)
 		var prog []reqSpec
-		for j := 0; j < n; j++ {
-			prog = append(prog, genReq(g, nacc))
+		if i%3 == 1 {
+			if nacc < 2 {
+				nacc = 2
+			}
+			if n < 3 {
+				n = 3
+			}
+			prog = genReadersWriters(g, nacc, n)
+			r.Count("program:readers-writers-family")
+		} else {
+			for j := 0; j < n; j++ {
+				prog = append(prog, genReq(g, nacc))
+			}
 		}
 		rn.random(nacc, prog, perProg, g.Fork())
 	}
